@@ -70,6 +70,8 @@ def command(r):
         return ":" + r.choice(["d", "1d", "2d", "1,2d", "$d", "y", "2y", "1,2y", "2,3d"]) + "<CR>"
     if k < 0.97:
         return "v" + r.choice(MOTIONS) + reg + r.choice(["d", "y", "~", "U", "u", "g?", "r" + r.choice(REPL), "c!<esc>"])
+    if r.random() < 0.5:
+        return r.choice(["h", "l", "3l", "2h", "0", "^", "$", "2$", "gg", "G", "3|", "|", "A<esc>", "I<esc>", "x", "X", "d0", "d$", "dl", "dh", "d^", "vl", "v$", "vh"])
     return r.choice(MOTIONS)
 
 
@@ -302,6 +304,46 @@ def run(tier, seed, replay=None):
             mmeta.append((i, k, lb, done, verb, mk))
             nmod += 1
         R.case(c, nontrivial=(nmod > 0 and any(a["buf"] != b["buf"] or a["regs"] != b["regs"] for a, b in pairs)))
+    # ---- simple motions: the MotionKind the real eval_motion produced vs the Lean motion model
+    SIMPLE = ("ForwardChar", "BackwardChar", "BeginningOfLine", "EndOfLine", "BeginningOfFirstWord", "BeginningOfBuffer", "EndOfBuffer", "ToColumn", "WholeBuffer")
+
+    def is_ws(g):
+        fl = 0
+        for ch in g:
+            if ch.isalnum() or ch == "_":
+                fl |= 2
+            elif ch.isspace():
+                fl |= 1
+        return fl == 1
+    qreqs, qmeta = [], []
+    for i, (c, x) in enumerate(zip(cases, resp)):
+        if "steps" not in x:
+            continue
+        for st in x["steps"][1:]:
+            for t in st["trace"]:
+                if t["k"] != "lb" or t["flags"] != 0:
+                    continue
+                mm = re.search(r"motion=Some\(MotionCmd\((\d+), (\w+)\)\) flags=", t["cmd"])
+                if not mm or mm.group(2) not in SIMPLE:
+                    continue
+                if t["cache"] is not None and t["cache"] != t["fresh"]:
+                    continue
+                if "\r" in t["buf"]:
+                    continue
+                gs = graphemes_of(t["buf"], t["fresh"])
+                qreqs.append({"op": "motion", "gs": gs, "cur": t["cur"]["value"], "excl": t["cur"]["exclusive"],
+                              "selecting": bool(t["sel_mode"]) and bool(t["sel_range"]), "ws": [is_ws(g) for g in gs],
+                              "motion": mm.group(2), "count": int(mm.group(1)), "appending": t["verb"] == "InsertMode"})
+                qmeta.append((c, t, mm.group(2)))
+    for (c, t, name), m in zip(qmeta, batch(model_driver, qreqs)):
+        R.count("motion_model:" + name)
+        if "mk" not in m:
+            R.disagreement("driver: %s" % canon(m)[:100], c)
+            continue
+        if m["mk"] != parse_mk(t["mk"]):
+            R.disagreement("motion model: %s x%s at %d of %r (excl %s): model %s impl %s" % (
+                name, re.search(r"MotionCmd\((\d+)", t["cmd"]).group(1), t["cur"]["value"], t["buf"][:60], t["cur"]["exclusive"], canon(m["mk"]), t["mk"]), c)
+
     mres = batch(model_driver, mreqs)
     for (i, k, lb, done, verb, mk), m in zip(mmeta, mres):
         c = cases[i]
